@@ -30,7 +30,7 @@ REACH = [
 PLAN = {
     "quick": {"shards": 8, "cases": 960, "timeout_s": 600, "min_evaluations": 24000,
               "min_counters": {"points_with_several_candidates": 4000, "overridden_implementations_checked": 4000}},
-    "thorough": {"shards": 16, "cases": 2500, "timeout_s": 3000, "min_evaluations": 100000,
+    "thorough": {"shards": 16, "cases": 30000, "timeout_s": 3000, "min_evaluations": 100000,
                  "min_counters": {"points_with_several_candidates": 20000}},
 }
 CTX_NAMES = ["HostContext", "HostArchiveContext", "SosArchiveContext", "SerializedArchiveContext", "JDRContext", "CtxA", "CtxB"]
